@@ -28,5 +28,6 @@ def run(ctx):
     ctx.run("C13.OWNERSHIP", "R-WHO", zf.ownership)
     ctx.run("C13.GUARDS", "R-ORDER/R-LOCK", zf.guards)
     ctx.run("C13.MODE-GATES", "R-TABLE", zf.mode_gates)
+    ctx.run("C03.MAGIC", "R-TABLE", zf.magic)
     ctx.run("C13.MODE-TYPESTATE", "R-WHO", zf.mode_typestate)
     ctx.run("C14.EOF-NOT-DATA", "R-ORDER", zf.eof_not_data)
